@@ -5,7 +5,7 @@ Line-protocol driver for the C03 model.
 
 Strings travel as `x<hex of the bytes>` (so `x` is the empty string).  Ops:
 
-* `srv <proto> <linked>`                    new server, no binds, no device domains; DB untouched
+* `srv <proto> <linked> <profiles>`         new server (group with/without profiles), no binds, no device domains; DB untouched
 * `bind a <ip> <port>` / `bind p <ip> <single> <port>`
 * `dom <xs>`
 * `dbreset`
@@ -16,7 +16,10 @@ Strings travel as `x<hex of the bytes>` (so `x` is the empty string).  Ops:
 * `req <userinfo> <xpath> <xsni> <edns> <lip> <lport> <rip>` with `<userinfo>` = `-` | `u:<xs>` |
   `p:<xs>:<xs>` and `<edns>` = `-` (no OPT) | `e` (no options) | `<code>:<xs>,…`
 
-`req` answers `<result> <cont> <downstream>`.
+* `http <tls> <xauthorization> <xpath> <edns> <lip> <lport> <rip>` with `<tls>` = `-` (no TLS state) | `<xsni>`:
+  the request information is derived by the model of `addRequestInfo` from the raw header
+
+`req` and `http` answer `<result> <cont> <downstream>`.
 -/
 namespace Agd.Driver.C03
 open Agd.Device Agd.Driver
@@ -42,6 +45,7 @@ inductive RawRes | ok (pid did : Str) | dnf | pnf | err
 
 structure S where
   srv : Srv := { proto := .dns, linkedIP := false, binds := [], domains := [] }
+  profiles : Bool := true
   profs : List Profile := []
   devs : List Device := []
   byid : List (Str × RawRes) := []
@@ -110,14 +114,15 @@ def showResult (r : Result) : String :=
   s!"{head} cont={showB (continues r)} down={down}"
 
 def step (s : S) : List String → S × String
-  | ["srv", proto, linked] =>
-    ({ s with srv := { proto := parseProto proto, linkedIP := bool! linked, binds := [], domains := [] } }, "ok")
+  | ["srv", proto, linked, profiles] =>
+    ({ s with srv := { proto := parseProto proto, linkedIP := bool! linked, binds := [], domains := [] },
+              profiles := bool! profiles }, "ok")
   | ["bind", "a", ip, port] =>
     ({ s with srv := { s.srv with binds := s.srv.binds ++ [.addr ip (nat! port)] } }, "ok")
   | ["bind", "p", ip, single, port] =>
     ({ s with srv := { s.srv with binds := s.srv.binds ++ [.pref ip (bool! single) (nat! port)] } }, "ok")
   | ["dom", d] => ({ s with srv := { s.srv with domains := s.srv.domains ++ [unx d] } }, "ok")
-  | ["dbreset"] => ({ srv := s.srv }, "ok")
+  | ["dbreset"] => ({ srv := s.srv, profiles := s.profiles }, "ok")
   | "prof" :: pid :: deleted :: devs =>
     ({ s with profs := { id := unx pid, deleted := bool! deleted, devices := devs.map unx } :: s.profs }, "ok")
   | "dev" :: id :: enabled :: dohonly :: rest =>
@@ -135,7 +140,12 @@ def step (s : S) : List String → S × String
   | ["req", ui, path, sni, edns, lip, lport, rip] =>
     let rq : Req := { userinfo := parseUserinfo ui, path := unx path, sni := unx sni, edns := parseEdns edns,
                       lip := lip, lport := nat! lport, rip := rip }
-    (s, showResult (find s.srv s.db rq))
+    (s, showResult (findIn s.profiles s.srv s.db rq))
+  | ["http", tls, auth, path, edns, lip, lport, rip] =>
+    let h : HttpReq := { tls := if tls == "-" then none else some (unx tls), auth := unx auth, path := unx path }
+    let base : Req := { userinfo := none, path := [], sni := [], edns := parseEdns edns,
+                        lip := lip, lport := nat! lport, rip := rip }
+    (s, showResult (findIn s.profiles s.srv s.db (addRequestInfo h base)))
   | _ => (s, "bad-op")
 
 def main : IO Unit := loop step {}
